@@ -31,20 +31,36 @@ PROPS["C16"] = {
     ],
 }
 
-PROPS["C03"] = {
-    "claimed": False,
-    "level_text": "tbd", "level_note": "tbd",
-    "runs": [
-        R("h264-n2", "pkg/format/rtph264", "pkg/format/rtph264", ["ZzC03H264"], params={"N": 2, "K": 1}),
-    ],
-}
+CODECS_GEN = [
+    # (pkg, Name, has C07, has C08Ind)
+    ("rtph264", "H264"), ("rtph265", "H265"), ("rtpav1", "AV1"), ("rtpvp8", "VP8"), ("rtpvp9", "VP9"),
+    ("rtpfragmented", "Fragmented"), ("rtpklv", "KLV"),
+]
 
+def codec_runs(prefix, suffix="", quick=None, thorough=None, extra_entries=None, flags=None):
+    runs = []
+    for pkg, name in CODECS_GEN:
+        ents = [prefix + name + suffix] + (extra_entries or {}).get(pkg, [])
+        runs.append(R(pkg[3:], "pkg/format/" + pkg, "pkg/format/" + pkg, ents, flags=dict(flags or {}),
+                      quick_params=(quick or {}).get(pkg, (quick or {}).get("*", {})),
+                      thorough_params=(thorough or {}).get(pkg, (thorough or {}).get("*", {}))))
+    return runs
+
+PROPS["C03"] = {
+    "claimed": False, "level_text": "tbd", "level_note": "tbd",
+    "runs": codec_runs("ZzC03", quick={"*": {"K": 1}}, thorough={"*": {"K": 2}}),
+}
+PROPS["C06"] = {
+    "claimed": False, "level_text": "tbd", "level_note": "tbd",
+    "runs": codec_runs("ZzC06", quick={"*": {"K": 1}}, thorough={"*": {"K": 2}}),
+}
+PROPS["C07"] = {
+    "claimed": False, "level_text": "tbd", "level_note": "tbd",
+    "runs": codec_runs("ZzC07", quick={"*": {"P": 5}}, thorough={"*": {}}),
+}
 PROPS["C08"] = {
-    "claimed": False,
-    "level_text": "tbd", "level_note": "tbd",
-    "runs": [
-        R("klv", "pkg/format/rtpklv", "pkg/format/rtpklv", ["ZzC08KLVHist", "ZzC08KLVInd"], params={"K": 2, "P": 18}),
-    ],
+    "claimed": False, "level_text": "tbd", "level_note": "tbd",
+    "runs": codec_runs("ZzC08", "Hist", extra_entries={"rtpklv": ["ZzC08KLVInd"], "rtpfragmented": ["ZzC08FragmentedInd"]}),
 }
 
 NOT_APPLICABLE = {
